@@ -43,7 +43,7 @@ CONSTANTS
   Seeds,     \* exhaustive runs: set of meshes [lev, w, ed, e2] ...
   Options,   \* ... each combined with every option record
              \*   [cutGiven, cut, pr, biGiven, bi, classical, temps, proj]
-  Variant    \* [zpeCutoff, projBandIndices, pyProjTotals |-> BOOLEAN]: which code is modelled
+  Variant    \* [zpeCutoff, projBandIndices, pyProjTotals, weightsByValue |-> BOOLEAN]: which code is modelled
              \*   zpeCutoff = FALSE : zero_point_energy sums every nu > 0 (pinned tree)
              \*   zpeCutoff = TRUE  : zero_point_energy sums nu > cutoff
              \*   projBandIndices = FALSE : is_projection with band_indices is broken (pinned tree,
@@ -51,6 +51,15 @@ CONSTANTS
              \*   pyProjTotals = FALSE : run(lang="Py") with is_projection reports the projected
              \*                       components in place of the totals (pinned tree)
              \*   pyProjTotals = TRUE  : totals, as the compiled path
+             \*   weightsByValue = FALSE : _run_c_thermal_properties hands mesh.weights to the kernel as
+             \*                       it is and the kernel reads the buffer as contiguous int64: any other
+             \*                       dtype or a strided view gives numbers unrelated to the weights
+             \*   weightsByValue = TRUE  : the kernel sees the VALUES of the weights
+             \* cfg.wl is the memory layout of the weight array ("int64", "uint64", "intc", "strided");
+             \* the layouts of the frequency and eigenvector arrays (cfg.fl, cfg.el) are not read by
+             \* the machine at all: the requirement does not depend on any of the three.
+             \* band_indices may list a band several times and in any order: the code then works on
+             \* the selected COLUMNS, a band listed m times is counted m times (requirement alike).
 
 VARIABLES pc, cfg, cut, fr, nmodes, nint, zpe, temps, propsC, outC, outPy, proj
 
@@ -109,7 +118,7 @@ Pick ==
   /\ \E o \in Options :
        cfg' = [lev |-> cfg.lev, w |-> cfg.w, ed |-> cfg.ed, e2 |-> cfg.e2,
                cutGiven |-> o.cutGiven, cut |-> o.cut, pr |-> o.pr, biGiven |-> o.biGiven, bi |-> o.bi,
-               classical |-> o.classical, temps |-> o.temps, proj |-> o.proj]
+               classical |-> o.classical, temps |-> o.temps, proj |-> o.proj, wl |-> o.wl]
   /\ pc' = "cutoff"
   /\ UNCHANGED <<cut, fr, nmodes, nint, zpe, temps, propsC, outC, outPy, proj>>
 
@@ -143,7 +152,10 @@ CountModes ==
 
 (* slots of the selected-band arrays passing a threshold *)
 Above(thr) == {<<q, i>> \in {<<q, i>> : q \in DOMAIN fr, i \in 1..Len(fr[1])} : fr[q][i].lev > thr}
-TermsOf(kind, thr) == {Term(0, s[1], fr[s[1]][s[2]].b, fr[s[1]][s[2]].lev, kind, cfg.w[s[1]]) : s \in Above(thr)}
+(* a band selected several times occupies several columns: its term is added once per column *)
+Columns(q, b) == Cardinality({i \in 1..Len(fr[1]) : fr[q][i].b = b})
+TermsOf(kind, thr) ==
+  {Term(0, s[1], fr[s[1]][s[2]].b, fr[s[1]][s[2]].lev, kind, cfg.w[s[1]] * Columns(s[1], fr[s[1]][s[2]].b)) : s \in Above(thr)}
 
 ZeroPoint ==
   /\ pc = "zpe"
@@ -173,10 +185,15 @@ KernelC ==
 (* a reported row: value(Q) = unit(Q) * (sum of the bag Q) / (div * den) *)
 Row(t, den, F, S, Cv) == [t |-> t, div |-> WSum(cfg), den |-> den, F |-> F, S |-> S, Cv |-> Cv]
 
+(* the kernel reads the weight buffer as contiguous int64 (see Variant.weightsByValue) *)
+WeightsMisread == /\ ~Variant.weightsByValue /\ cfg.wl \notin {"int64", "uint64"}
+                  /\ \E j \in DOMAIN temps : propsC[j].F # {} \/ propsC[j].S # {} \/ propsC[j].Cv # {}
+
 AssembleC ==
   /\ pc = "assembleC"
-  /\ outC' = [status |-> "ok",
-              rows |-> [j \in DOMAIN temps |-> Row(temps[j], 1, BagPlus(propsC[j].F, zpe), propsC[j].S, propsC[j].Cv)]]
+  /\ outC' = IF WeightsMisread THEN [status |-> "garbage"]
+             ELSE [status |-> "ok",
+                   rows |-> [j \in DOMAIN temps |-> Row(temps[j], 1, BagPlus(propsC[j].F, zpe), propsC[j].S, propsC[j].Cv)]]
   /\ pc' = "runPy"
   /\ UNCHANGED <<cfg, cut, fr, nmodes, nint, zpe, temps, propsC, outPy, proj>>
 
@@ -248,7 +265,10 @@ EffLev(c, l) == IF c.pr THEN AbsI(l) ELSE l
 CutOf(c) == IF c.cutGiven /\ c.cut > 0 THEN c.cut ELSE 0
 Selected(c) == IF c.biGiven THEN Range(c.bi) ELSE 1..NB(c)
 Contributing(c) == {m \in (1..NQ(c)) \X Selected(c) : EffLev(c, c.lev[m[1]][m[2]]) > CutOf(c)}
-ReqTerms(c, kind) == {Term(0, m[1], m[2], EffLev(c, c.lev[m[1]][m[2]]), kind, c.w[m[1]]) : m \in Contributing(c)}
+(* how often band b is listed (1 without band_indices) *)
+Listed(c, b) == IF c.biGiven THEN Cardinality({i \in 1..Len(c.bi) : c.bi[i] = b}) ELSE 1
+ReqTerms(c, kind) ==
+  {Term(0, m[1], m[2], EffLev(c, c.lev[m[1]][m[2]]), kind, c.w[m[1]] * Listed(c, m[2])) : m \in Contributing(c)}
 
 ReqBags(c, t) ==
   IF t > 0
@@ -277,8 +297,8 @@ ReqRecord(c) ==
   [rows |-> ReqRows(c),
    proj |-> IF c.proj THEN [status |-> "ok", rows |-> ReqProjRows(c)] ELSE [status |-> "none"],
    zpe |-> IF c.classical THEN {} ELSE ReqTerms(c, "ZPE"),
-   nmodes |-> Cardinality(Selected(c)) * WSum(c),
-   nint |-> SetSum({<<m, c.w[m[1]]>> : m \in Contributing(c)})]
+   nmodes |-> Len(Bands(c)) * WSum(c),
+   nint |-> SetSum({<<m, c.w[m[1]] * Listed(c, m[2])>> : m \in Contributing(c)})]
 
 (* sum over components k of a projected bag *)
 Collapse(B) ==
@@ -339,7 +359,8 @@ InvTermsC  == Done => ReqOut(cfg, outC)
 InvTermsPy == Done /\ outPy.status # "error" => ReqOut(cfg, outPy)
 InvSameTermsBothLanguages ==
   Done /\ outPy.status = "ok" =>
-     \A j \in 1..Len(outC.rows) :
+     /\ outC.status = "ok"
+     /\ \A j \in 1..Len(outC.rows) :
         LET a == TotalsOf(cfg, outC.rows)[j]  b == TotalsOf(cfg, outPy.rows)[j]
         IN /\ a.t = b.t /\ a.div = b.div
            /\ Scale(a.F, b.den) = Scale(b.F, a.den) /\ Scale(a.S, b.den) = Scale(b.S, a.den)
@@ -353,7 +374,7 @@ InvZeroPointAttribute == Done => ReqZpeAttr(cfg, zpe)
 InvProjection == Done => ReqProj(cfg, proj)
 (* the reported number of integrated modes is the number of modes that contribute *)
 InvCountMatchesTerms ==
-  Done => \A j \in 1..Len(outC.rows) : outC.rows[j].t > 0 => SetSum({<<t, t.c>> : t \in outC.rows[j].Cv}) = nint
+  Done /\ outC.status = "ok" => \A j \in 1..Len(outC.rows) : outC.rows[j].t > 0 => SetSum({<<t, t.c>> : t \in outC.rows[j].Cv}) = nint
 
 -----------------------------------------------------------------------------
 (* Configuration spaces for the model runs *)
@@ -368,8 +389,8 @@ AllSeeds(nq, nb, Levs, Ws, sorted) ==
   { [lev |-> L, w |-> W, ed |-> nb + 1,
      e2 |-> [q \in 1..nq |-> IF q = 1 THEN E2Mix(nb) ELSE E2Id(nb, nb + 1)]] :
       L \in SeqsOf(IF sorted THEN SortedSeqs(Levs, nb) ELSE SeqsOf(Levs, nb), nq), W \in SeqsOf(Ws, nq) }
-AllOptions(Cuts, BIs, TempLists, ProjSet) ==
+AllOptions(Cuts, BIs, TempLists, ProjSet, WLs) ==
   { [cutGiven |-> cg.g, cut |-> cg.c, pr |-> p, biGiven |-> bi.g, bi |-> bi.s,
-     classical |-> cl, temps |-> T, proj |-> pj] :
-      cg \in Cuts, p \in BOOLEAN, bi \in BIs, cl \in BOOLEAN, T \in TempLists, pj \in ProjSet }
+     classical |-> cl, temps |-> T, proj |-> pj, wl |-> wl] :
+      cg \in Cuts, p \in BOOLEAN, bi \in BIs, cl \in BOOLEAN, T \in TempLists, pj \in ProjSet, wl \in WLs }
 =============================================================================
